@@ -1,0 +1,40 @@
+//go:build verif
+
+package align
+
+// Contracts for property C13 (de-duplication and site compression lose nothing but redundancy). Comments only.
+// The contract of (*seqbag).Deduplicate is in zz_contracts_c01b_verif.go (one contract per function: its C01 clauses
+// are kept there, the C13 clauses are added in place); the vocabulary it uses is defined here.
+
+// ---- vocabulary of Deduplicate ----
+
+// the residue as it is compared: with nAsGap, X (amino acids) / N (nucleotides) count as a gap
+//@ pure func c13_cc(alpha int, nag bool, c int) int = ((nag && alpha == AMINOACIDS && c == ALL_AMINO) || (nag && alpha == NUCLEOTIDS && c == ALL_NUCLE) ? GAP : c)
+// rows q1 and q2 of the bag are the same sequence for the comparison
+//@ pure func c13_eq(sb *seqbag, nag bool, q1 int, q2 int) bool = rowlen(sb, q1) == rowlen(sb, q2) && (forall j :: 0 <= j && j < rowlen(sb, q1) ==> c13_cc(sb.alphabet, nag, cell(sb, q1, j)) == c13_cc(sb.alphabet, nag, cell(sb, q2, j)))
+// row q is the first occurrence of its sequence
+//@ pure func c13_first(sb *seqbag, nag bool, q int) bool = forall p :: 0 <= p && p < q ==> !c13_eq(sb, nag, p, q)
+// the string k is the comparison key of row q (byte-wise)
+//@ pure func c13_iskey(sb *seqbag, nag bool, k string, q int) bool = len(k) == rowlen(sb, q) && (forall j :: 0 <= j && j < rowlen(sb, q) ==> k[j] == c13_cc(sb.alphabet, nag, cell(sb, q, j)))
+// the comparison key of row q as the code builds it: string(residues), with X / N replaced by a gap under nAsGap
+//@ pure func c13_str(sb *seqbag, q int) string = strof(sb.seqs[q].sequence)
+//@ pure func c13_key(sb *seqbag, nag bool, q int) string = (nag && sb.alphabet == AMINOACIDS ? strrepl1(c13_str(sb, q), ALL_AMINO, GAP) : (nag && sb.alphabet == NUCLEOTIDS ? strrepl1(c13_str(sb, q), ALL_NUCLE, GAP) : c13_str(sb, q)))
+
+// ---- (*align).Compress: NOT COVERED (no contract) ----
+// Out of reach of the generator as built, for three independent reasons:
+//  1. the pattern store is a third-party radix tree (github.com/armon/go-radix: New, Get, Insert, Walk). Weak true externs for
+//     New/Get/Insert can be written, but then the value Get returns is an unconstrained interface{} and the type assertion
+//     count.(*struct{ count int }) (a panic obligation) needs a ghost model of the tree content (key -> pointer to a live counter);
+//  2. the second pass is a function literal handed to the LIBRARY function Walk: the literal writes a.seqs[seq].sequence[npat],
+//     weights[npat] and npat. Everything a literal writes is havocked after such a call, and its index obligations
+//     (npat < len(weights) = number of distinct keys, seq < nrows(a)) need the cardinality of the key set and an `iterates`
+//     protocol for Walk, which exists only for the in-repo iterators;
+//  3. the multiplicity clause (each pattern once, with its count; weights sum to the length) is a multiset statement over that model.
+// Clauses that a contract would carry (from the property statement):
+//   requires wfa(a)
+//   ensures wfa(a) && nrows(a) == old(nrows(a)) && len(weights) == a.length
+//   ensures forall j :: 0 <= j && j < len(weights) ==> weights[j] >= 1          and  sum(weights, len(weights)) == old(a.length)
+//   ensures forall j :: 0 <= j && j < a.length ==> exists s :: 0 <= s && s < old(a.length) && (forall r :: 0 <= r && r < nrows(a) ==> cell(a, r, j) == old(cell(a, r, s)))
+//   ensures forall j1, j2 :: 0 <= j1 && j1 < j2 && j2 < a.length ==> exists r :: 0 <= r && r < nrows(a) && cell(a, r, j1) != cell(a, r, j2)
+// CONFIRMED DEFECT (by test, see defect_1_test.go / defect_1_fix.patch of the C13 report): the clause "every result column is a
+// column of the input" is false for residue bytes >= 0x80: `for seq, c := range pattern` decodes the pattern string as UTF-8.
